@@ -33,7 +33,8 @@ GLOBAL = '_global_state'
 
 def run(ctx):
     for fn in (r1_overlay_lifetime, r2_inline_never_persistent, r3_overlay_read_before_write, r4_lookup_order,
-               r5_run_loop, r6_comments_only, r7_defaults_path, r8_break_placement, r9_inline_classification, r10_effects_at_call_time, r11_statement_starts):
+               r5_run_loop, r6_comments_only, r7_defaults_path, r8_break_placement, r9_inline_classification, r10_effects_at_call_time, r11_statement_starts,
+               r12_every_effect_applied, r13_overlay_copy_on_first_write):
         ctx.rep.rule(fn, ctx)
 
 
@@ -906,6 +907,58 @@ def r10_effects_at_call_time(ctx):
     rep.ob('C04.R10', ctx.loc(fe, fe.node), 'effects() is not memoised', not decos, 'plain method' if not decos else 'effects() is wrapped by %s' % decos, nontrivial=False, anchor=fe.qualname)
 
 
+def r12_every_effect_applied(ctx):
+    """RuntimeState.update applies EVERY effect of EVERY directive it is given: an iteration of the directive / effect loops may be cut short
+    (`continue` on a no-op) but the loops are never left early -- a `break` or `return` drops the effects that follow (e.g. the unmet second
+    argument of `+REQUIRES(met, unmet)`)"""
+    rep = ctx.rep
+    f = ctx.func(RS + '.update')
+    g = ctx.cfg(f)
+    loops = [n for n in g.nodes if n.kind == 'for' and not n.dup]
+    rep.floor('C04.R12', 'loops over directives and their effects in update', len(loops), 2)
+    bad = []
+    for n in g.nodes:
+        if n.kind != 'stmt' or n.dup or not isinstance(n.ast, (ast.Break, ast.Return)):
+            continue
+        if any(fr.kind == 'loop' for fr in n.frames):
+            bad.append(n)
+    for n in bad:
+        rep.ob('C04.R12', ctx.loc(f, n.ast), ctx.src(n.ast), False,
+               'the loop over the effects of the directives is left early: the remaining effects of this directive (and of the directives after it) are not applied', anchor=f.qualname)
+    for lp in loops:
+        rep.ob('C04.R12', ctx.loc(f, lp.ast), 'for %s in %s' % (ctx.src(lp.ast.target), ctx.src(lp.ast.iter, 50)), not bad,
+               'never left by break / return: every element is processed' if not bad else 'left early (see above)', anchor=f.qualname)
+
+
+def r13_overlay_copy_on_first_write(ctx):
+    """an inline set-valued directive works on a COPY of the persistent set, made when the overlay does not hold the key yet.  The copy has to be
+    guarded by exactly that test: copying again on a later effect of the same comment throws away what the earlier effects did to the overlay"""
+    rep = ctx.rep
+    f = ctx.func(RS + '.update')
+    g = ctx.cfg(f)
+    recv = _recv(f)
+    dom = ctx.dom(g, g.entry)
+    copies = []
+    for n in g.nodes:
+        if n.kind != 'stmt' or n.dup or not isinstance(n.ast, ast.Assign) or not isinstance(n.ast.targets[0], ast.Subscript):
+            continue
+        reads_global = any(isinstance(x, ast.Subscript) and field_name(x.value, recv) == recv + '.' + GLOBAL for x in ast.walk(n.ast.value))
+        if reads_global and isinstance(n.ast.targets[0].value, ast.Name):
+            copies.append(n)
+    rep.floor('C04.R13', 'copies of a persistent set into the working state', len(copies), 2)
+    for n in copies:
+        tgt = n.ast.targets[0]
+        state, key = tgt.value.id, ctx.src(tgt.slice)
+        facts = [fa for fa in graph.guard_facts(dom, n) if fa.polarity in (True, False) and isinstance(fa.expr, ast.AST)]
+        ok = any(isinstance(fa.expr, ast.Compare) and len(fa.expr.ops) == 1 and
+                 ((isinstance(fa.expr.ops[0], ast.NotIn) and fa.polarity is True) or (isinstance(fa.expr.ops[0], ast.In) and fa.polarity is False)) and
+                 ctx.src(fa.expr.left) == key and is_name(fa.expr.comparators[0], state) for fa in facts)
+        rep.ob('C04.R13', ctx.loc(f, n.ast), ctx.src(n.ast), ok,
+               'copied only when `%s` is not in `%s` yet' % (key, state) if ok else
+               'the persistent set is copied into the working state without testing that the key is absent (guards: %s): a second REQUIRES effect of the same inline comment '
+               'starts from the persistent set again and undoes the first' % fmt_facts(facts), anchor=f.qualname)
+
+
 # ---------------------------------------------------------------------------
 from ..selftest import fire, silent      # noqa: E402
 
@@ -913,6 +966,8 @@ DE = 'xdoctest/doctest_example.py'
 DI = 'xdoctest/directive.py'
 SA = 'xdoctest/static_analysis.py'
 VARIANTS = [
+    fire('noop-effect-ends-the-directive', 'C04.R12', ('xdoctest/directive.py', "                if action == 'noop':\n                    continue\n", "                if action == 'noop':\n                    break\n")),
+    fire('overlay-recopied-for-every-inline-effect', 'C04.R13', ('xdoctest/directive.py', "                elif action == 'set.add':\n                    if key not in state:\n", "                elif action == 'set.add':\n                    if directive.inline:\n")),
     fire('inline-iff-no-comment-line', 'C04.R9', (DI, "        inline = not all(line.strip().startswith('#')\n", "        inline = not any(line.strip().startswith('#')\n")),
     silent('inline-any-not-comment', (DI, "        inline = not all(line.strip().startswith('#')\n                         for line in text.splitlines())\n", "        inline = any(not line.lstrip().startswith('#')\n                     for line in text.splitlines())\n")),
     fire('effects-remembered-on-the-directive', 'C04.R10', (DI, "        self.positive = positive\n", "        self.positive = positive\n        self._effects = None\n"), (DI, "    def effects(self, argv=None, environ=None):\n", "    def effects(self, argv=None, environ=None):\n        if self._effects is None:\n            self._effects = self._effects_uncached(argv, environ)\n        return self._effects\n\n    def _effects_uncached(self, argv=None, environ=None):\n")),
